@@ -100,8 +100,12 @@ func (r *Report) Floor(rule, what string, got, want int) {
 	}
 }
 
-func (r *Report) Note(format string, a ...interface{}) { r.Notes = append(r.Notes, fmt.Sprintf(format, a...)) }
-func (r *Report) List(format string, a ...interface{}) { r.Listed = append(r.Listed, fmt.Sprintf(format, a...)) }
+func (r *Report) Note(format string, a ...interface{}) {
+	r.Notes = append(r.Notes, fmt.Sprintf(format, a...))
+}
+func (r *Report) List(format string, a ...interface{}) {
+	r.Listed = append(r.Listed, fmt.Sprintf(format, a...))
+}
 
 // ---- known findings --------------------------------------------------------------------
 
@@ -240,18 +244,18 @@ func (r *Report) Finish(tier string, seed int, level string, known []Finding, ev
 		"distinct_nontrivial": nontriv,
 		"rule": "one obligation per (rule, construct) instance found in /repo's current source; non-trivial = the decision needed a non-empty fact set " +
 			"(a dominating guard, a held lock, a proved inequality, a resolved call path); keyed by rule+construct (function, object, ordinal), never by line",
-		"samples":            samples,
-		"explanation":        explanation,
-		"checker_cmd":        strings.Join(os.Args, " "),
-		"trusted_base":       trusted,
-		"rules":              r.RuleDoc,
-		"per_rule":           perRule,
-		"floors":             r.Floors,
-		"all_obligations":    r.Obs,
-		"listed_not_armed":   r.Listed,
-		"notes":              r.Notes,
-		"functions_analysed": fns,
-		"packages_loaded":    pkgs,
+		"samples":                    samples,
+		"explanation":                explanation,
+		"checker_cmd":                strings.Join(os.Args, " "),
+		"trusted_base":               trusted,
+		"rules":                      r.RuleDoc,
+		"per_rule":                   perRule,
+		"floors":                     r.Floors,
+		"all_obligations":            r.Obs,
+		"listed_not_armed":           r.Listed,
+		"notes":                      r.Notes,
+		"functions_analysed":         fns,
+		"packages_loaded":            pkgs,
 		"function_bodies_in_program": nfn,
 		"known_findings_reported":    knownHit,
 		"exhaustive":                 false,
